@@ -212,7 +212,11 @@ Inductive lout :=
 | LMissing.
 
 Definition path := list nat.
-Record oracles := mkO { o_leaf : path -> lout; o_perm : path -> list (nat * nat); o_best : path -> nat }.
+(* o_recompute is not an oracle but the VERSION of MathMixin.consolidate_results in force: does it re-derive 'ok' from the
+   (scaled) grade of the comparer result it returns?  false for the code as found (finding C01, see Props/C01.v); the
+   harness reads it off the source on every run, so that the model follows a repaired /repo. *)
+Record oracles := mkO { o_leaf : path -> lout; o_perm : path -> list (nat * nat); o_best : path -> nat;
+                        o_recompute : bool }.
 
 (* ------------------------------------------------------------------------------------------------
    leaves
@@ -239,15 +243,18 @@ Fixpoint consolidate_loop (single : bool) (failable failures : nat) (rs : list e
       else if single || (failable <? S failures)%nat then Some r
            else consolidate_loop single failable (S failures) t
   end.
-Definition consolidate (rs : list entry) (pruned : entry) (failable : nat) : entry :=
-  match consolidate_loop (length rs =? 1)%nat failable 0 rs with Some r => r | None => pruned end.
+Definition consolidate (recompute : bool) (rs : list entry) (pruned : entry) (failable : nat) : entry :=
+  match consolidate_loop (length rs =? 1)%nat failable 0 rs with
+  | Some r => if recompute then mkEntry (grade_to_ok (e_grade r)) (e_grade r) (e_msg r) else r
+  | None => pruned
+  end.
 
-Definition formula_response (failable : nat) (c : Q) (m : str) (o : okv) (l : list cfn) : ires :=
-  short (consolidate (map (fun v => scale_raw c (standardize v)) l) (mkEntry o c m) failable).
+Definition formula_response (recompute : bool) (failable : nat) (c : Q) (m : str) (o : okv) (l : list cfn) : ires :=
+  short (consolidate recompute (map (fun v => scale_raw c (standardize v)) l) (mkEntry o c m) failable).
 
 (* SummationGraderBase.raw_check: consolidate_results(results, None, failable_evals) *)
-Definition sum_response (failable : nat) (l : list cfn) : ires :=
-  short (consolidate (map standardize l) (mkEntry OkTrue 1 []) failable).
+Definition sum_response (recompute : bool) (failable : nat) (l : list cfn) : ires :=
+  short (consolidate recompute (map standardize l) (mkEntry OkTrue 1 []) failable).
 
 Definition string_response (c : Q) (m : str) (o : okv) (s : sout) : ires :=
   match s with
@@ -265,14 +272,14 @@ Definition matrix_err (c : mcfg) (k : materr) (m : str) : out ires :=
        | MOther => Raise
        end.
 
-Definition leaf_response (k : leafkind) (c : Q) (m : str) (o : okv) (l : lout) : out ires :=
+Definition leaf_response (rc : bool) (k : leafkind) (c : Q) (m : str) (o : okv) (l : lout) : out ires :=
   match l with
   | LRaise => Raise
   | LMissing => Missing
   | LRet r => Ret r
   | LStr s => match k with KString => Ret (string_response c m o s) | _ => Missing end
   | LCfn v => match k with
-              | KFormula f | KMatrix f _ => Ret (formula_response f c m o v)
+              | KFormula f | KMatrix f _ => Ret (formula_response rc f c m o v)
               | _ => Missing
               end
   | LMatErr e em => match k with KMatrix _ mc => matrix_err mc e em | _ => Missing end
@@ -592,7 +599,7 @@ Section Check.
             match a with
             | AItem [] => Raise                                                     (* ConfigError: no answers *)
             | AItem alts =>
-                bind (collect (mapi (fun i ea => leaf_response k (alt_credit (snd ea)) (alt_msg (snd ea))
+                bind (collect (mapi (fun i ea => leaf_response (o_recompute OR) k (alt_credit (snd ea)) (alt_msg (snd ea))
                                                                (alt_ok (snd ea)) (o_leaf OR (p ++ [i])))
                                     (singles alts)))
                      (fun rs => bind (item_select wrong rs) (fun r => Ret (RShort r)))
@@ -630,7 +637,7 @@ Section Check.
             end
         | GSum failable =>
             match o_leaf OR p with
-            | LCfn l => Ret (RShort (sum_response failable l))
+            | LCfn l => Ret (RShort (sum_response (o_recompute OR) failable l))
             | LRet r => Ret (RShort r)
             | LRaise => Raise
             | _ => Missing
